@@ -24,6 +24,7 @@ THEOREMS = [
     "MySensors.C19.tcp_reader_loop", "MySensors.C19.tcp_reader_any_two", "MySensors.C19.tcp_reader_chunks",
     "MySensors.C19.behaviour_independent_of_segmentation", "MySensors.C19.inline_is_model_run",
     "MySensors.C19.inline_output_is_model_step",
+    "MySensors.C19.state_is_function_of_lines_reader", "MySensors.C19.state_is_function_of_lines_events",
     "MySensors.C19.reconnect_is_concatenation", "MySensors.C19.events_any_two",
     "MySensors.C19.behaviour_independent_of_connection_events",
     "MySensors.C19.reconnect_drop_policy", "MySensors.C19.events_deliver_complete_lines",
@@ -1156,11 +1157,13 @@ def end_to_end(version, chunks, cls_name):
                 break
     finally:
         handler.time.localtime = orig
+    end_to_end.last_ota = G.project_ota(gw.tasks.ota)
     return G.project_sensors(gw.sensors), list(tr.log), bytes(proto.buffer), exc
 
 
-def part_end_to_end(res, rng, tier):
+def part_end_to_end(res, rng, tier, driver=None):
     n = (50 if tier == "quick" else 500) * common.effort(tier)
+    ops, impl, cases = [], [], []
     for i in range(n):
         version = rng.choice(["1.4", "2.0", "2.2", "2.1"])
         hist = G.gen_history(rng, version, 30, persist=False, ota=False, sleep=True, malformed=0.2)
@@ -1177,6 +1180,13 @@ def part_end_to_end(res, rng, tier):
             data += b
         whole = end_to_end(version, [data], "base")
         nn = len(data)
+        if whole[3] is None:
+            # theorem state_is_function_of_lines_*: the model's inline pump on the complete lines of the stream
+            lines_, _tail = spec_feed(data)
+            ops.append(f"PUMP {version} base none " + " ".join("I:" + enc_str(l) for l in lines_))
+            em = "|".join(enc_str(x) for x in whole[1]) or "-"
+            impl.append(f"em={em} q=0 st={whole[0]} ota={end_to_end.last_ota}")
+            cases.append({"part": "e2e", "version": version, "stream": data.hex(), "cuts": []})
         for k in range(3):
             if k == 0:
                 chunks = [data[j:j + 1] for j in range(nn)]
@@ -1202,6 +1212,20 @@ def part_end_to_end(res, rng, tier):
                     "replay": {"part": "e2e", "version": version, "stream": data.hex(), "cuts": cuts}})
         if whole[1]:
             res.distinct.add(digest(whole[1]))
+    if driver is not None and ops:
+        try:
+            model = driver.run(ops)
+        except Exception as exc:  # noqa: BLE001
+            res.corr_diffs.append({"name": "e2e-driver", "case": "driver", "model": str(exc), "impl": ""})
+            model = []
+        nd = 0
+        for m, b, c in zip(model, impl, cases):
+            if m != b:
+                nd += 1
+                if nd <= 5:
+                    res.corr_diffs.append({"name": "e2e-bytes-to-state", "case": c, "model": m[:400], "impl": b[:400]})
+        res.traces_validated += len(model)
+        res.count("end-to-end-vs-model", len(model))
 
 
 def run(tier, seed, driver):
@@ -1215,7 +1239,7 @@ def run(tier, seed, driver):
         res.count("tcp-reader skipped: " + str(exc)[:60])
     part_serial_reader(res, rng, tier, driver)
     part_flavours(res, rng, driver, tier)
-    part_end_to_end(res, rng, tier)
+    part_end_to_end(res, rng, tier, driver)
     res.exhaustive = False
     res.rule = ("framing: byte streams built from valid frames, garbage, CRLF/LF, empty lines, multi-byte and "
                 "invalid UTF-8, NUL, unterminated tails, unterminated noise of 101 … 8193 (thorough: 200001) bytes before "
